@@ -8,6 +8,8 @@ package types
 //@ func (BridgeConfig) Validate
 //@   ensures err == nil ==> config.FinalizationPeriod > 0                                        // C05: period_positive
 //@   ensures err == nil ==> addrOK(ac, config.Challenger) && addrOK(ac, config.Proposer)        // C12: roles_are_addresses
+//@   ensures addrOK(ac, config.Challenger) && addrOK(ac, config.Proposer) && config.BatchInfo.ChainType != 0 && len(config.BatchInfo.Submitter) > 0
+//@        && config.FinalizationPeriod > 0 && config.SubmissionInterval != 0 && config.SubmissionStartHeight != 0 ==> err == nil           // C12: accepts_every_well_formed_config
 
 //@ func (BridgeConfig) ValidateWithNoAddrValidation
 //@   ensures err == nil ==> config.FinalizationPeriod > 0                                        // C05: period_positive
